@@ -91,7 +91,7 @@ fn replacement(id: ObjectId, j: usize, was_stream: bool) -> Object {
 fn spec_of(bk: usize, style: Style, hist: &[Rev], container_base: bool) -> FileSpec {
     let (objects, trailer, designated) = base(bk);
     let mut next_new = objects.keys().map(|k| k.0).max().unwrap() + 1;
-    let mut sections = vec![Section { objects: objects.clone(), trailer: trailer.clone(), objstm: Some(if container_base && style == Style::Stream { 1 } else { 0 }), omit_xref: vec![] }];
+    let mut sections = vec![Section { objects: objects.clone(), trailer: trailer.clone(), objstm: Some(if container_base && style == Style::Stream { 1 } else { 0 }), omit_xref: vec![], extra_members: vec![] }];
     for (j, r) in hist.iter().enumerate() {
         let mut o = BTreeMap::new();
         for (b, id) in designated.iter().enumerate() {
@@ -103,7 +103,7 @@ fn spec_of(bk: usize, style: Style, hist: &[Rev], container_base: bool) -> FileS
             o.insert((next_new, 0), Object::Dictionary(dict(vec![("New", Object::Integer(next_new as i64)), ("Rev", Object::Integer(j as i64 + 1))])));
             next_new += 1;
         }
-        sections.push(Section { objects: o, trailer: trailer.clone(), objstm: Some(if r.objstm { 1 } else { 0 }), omit_xref: vec![] });
+        sections.push(Section { objects: o, trailer: trailer.clone(), objstm: Some(if r.objstm { 1 } else { 0 }), omit_xref: vec![], extra_members: vec![] });
     }
     FileSpec { version: "1.6".into(), mark: vec![0xe2, 0xe3, 0xcf, 0xd3], style, sections, helper_base: Some(500) }
 }
